@@ -319,6 +319,8 @@ class Inliner:
         if not (_is_private(node.attr) or node.attr in self.also) or node.attr in self.exclude:
             return None
         r = self.repo.lookup(self.ci, node.attr)
+        if r is not None and r[1] == "assign" and self.exact and isinstance(r[2], ast.Constant):
+            return copy.deepcopy(r[2])          # a class-level constant that replaces the property on exactly this class
         if r is None or r[1] != "property" or r[2][0] is None or r[2][1] is not None:
             return None
         if self._overridden(r[0], node.attr):
@@ -326,6 +328,10 @@ class Inliner:
         b = _body(r[2][0])
         if len(b) == 1 and isinstance(b[0], ast.Return) and b[0].value is not None:
             return copy.deepcopy(b[0].value)
+        if not any(isinstance(n, (ast.Call, ast.Yield, ast.Await)) for st in b for n in ast.walk(st)):
+            e = as_expression(r[2][0])           # `if self.min < 0: return self.min` / `return 0`  as one conditional expression
+            if e is not None:
+                return e
         return None
 
     # ------------------------------------------------------------------ instantiation
@@ -1203,9 +1209,17 @@ def expand_aliases(fn: ast.FunctionDef) -> ast.FunctionDef:
             ok = isinstance(v, ast.Attribute)
             while isinstance(chain, ast.Attribute):
                 chain = chain.value
-            if ok and isinstance(chain, ast.Name) and cnt.get(nm) == 1 and nm not in banned and norm(v) not in stored_chains \
+            if ok and isinstance(chain, ast.Name) and cnt.get(nm) == 1 and nm not in banned \
                     and (chain.id == "self" or chain.id in {a.arg for a in new.args.args}):
-                alias[nm] = v
+                if norm(v) not in stored_chains:
+                    alias[nm] = v
+                else:
+                    # the chain is re-assigned in this function: the abbreviation is still exact if every use of it comes first
+                    first_store = min(pos(n) for n in ast.walk(new) if isinstance(n, ast.Attribute) and isinstance(n.ctx, ast.Store) and norm(n) == norm(v))
+                    uses = [n for n in ast.walk(new) if isinstance(n, ast.Name) and n.id == nm and isinstance(n.ctx, ast.Load)]
+                    in_loop = any(isinstance(lp, (ast.For, ast.While)) and any(u is x for u in uses for x in ast.walk(lp)) for lp in ast.walk(new))
+                    if uses and all(pos(u) < first_store for u in uses) and not in_loop and pos(st) < first_store:
+                        alias[nm] = v
     if not alias:
         return new
     new.body = [st for st in new.body if not (isinstance(st, ast.Assign) and len(st.targets) == 1 and isinstance(st.targets[0], ast.Name)
